@@ -322,6 +322,23 @@ def build_celllist(cfg, keep=None):
     kw = {}
     if sel is not None:
         kw["selection"] = sel
+    if cfg.get("prec"):
+        # option precedence: own box attribute / box argument / periodic flag given independently; cfg["box"] names the
+        # box that the documentation says is used (None: non-periodic)
+        own, arg, periodic = cfg["prec"]
+        if form == "atoms":
+            c = struc.AtomArray(n)
+            c.coord = coords
+            if own is not None:
+                c.box = np.array(BOXES[own], dtype=np.float32)
+        else:
+            c = flavour_array(coords, form)
+        if arg is not None:
+            kw["box"] = np.array(BOXES[arg], dtype=np.float32)
+        if keep is not None:
+            keep.update({"coord": c, "sel": sel, "box": kw.get("box")})
+        cl = struc.CellList(c, cfg["cs"], periodic=periodic, **kw)
+        return cl, coords, msel, box
     if form == "atoms":
         arr = struc.AtomArray(n)
         arr.coord = coords
@@ -720,6 +737,8 @@ def run_adj(ctx, cfg, cl, orc, op, count=True):
 
 def input_class(cfg, op, orc, q, r):
     parts = [orc.per, "sel" if cfg.get("sel") else "nosel"]
+    if cfg.get("prec"):
+        parts.append(build_class(cfg) + (",boxes_differ" if cfg["prec"][0] and cfg["prec"][1] and cfg["prec"][0] != cfg["prec"][1] else ""))
     if op["m"] != "adj":
         qq = q[r] if q is not None and len(q) else None
         if qq is not None and not np.isfinite(qq).all():
@@ -849,6 +868,9 @@ def run_config(ctx, cfg, level):
 
 
 def build_class(cfg):
+    if cfg.get("prec"):
+        own, arg, periodic = cfg["prec"]
+        return "own_%s,arg_%s,periodic_%s" % ("box" if own else "none", "box" if arg else "none", periodic)
     s = cfg.get("sel")
     if s is not None and s[0] == "strided":
         return "selection_noncontiguous"
@@ -911,6 +933,7 @@ def shards(tier, seed):
     out.append({"kind": "flavour_pairs", "off": 0})
     out.append({"kind": "derived", "off": 0})
     out.append({"kind": "derived", "off": off})
+    out.append({"kind": "precedence", "off": 0})
     out.append({"kind": "orient", "what": "order", "off": off})
     out.append({"kind": "orient", "what": "boxrows", "off": off})
     for r in (range(24) if tier == "thorough" else [(5 * seed + k) % 24 for k in (1, 10, 19)]):
@@ -918,7 +941,7 @@ def shards(tier, seed):
     out.append({"kind": "edge", "off": off})
     # heavy shards first
     weight = {"st": 0, "pst": 0, "ms": 1, "pms": 1, "sel": 2, "assign": 3, "misc": 3, "cap": 0, "reuse": 2, "alias": 2,
-              "flavour": 2, "orient": 2, "edge": 3, "flavour_pairs": 2, "derived": 2}
+              "flavour": 2, "orient": 2, "edge": 3, "flavour_pairs": 2, "derived": 2, "precedence": 2}
     out.sort(key=lambda s: weight[s["kind"]])
     return out
 
@@ -1647,6 +1670,47 @@ def cl_coord(x):
     return np.asarray(x.coord if hasattr(x, "coord") else x)
 
 
+PREC_PAIRS = [("o3", "o345"), ("t1", "t2"), ("o4", "t1")]
+
+
+def run_precedence(shard, ctx):
+    """OPTION PRECEDENCE - the box of a periodic cell list can come from the `box` argument or from the box attribute of
+    the AtomArray.  Complete product {AtomArray, ndarray} x {own box: none, box1, box2} x {box argument: none, box1,
+    box2} x {periodic False, True} x 3 box pairs x 2 sets x 2 cell sizes.  Documented: periodic=False ignores every
+    box; periodic=True uses the box argument 'instead of the box attribute', the attribute only without an argument;
+    no box at all is refused."""
+    import biotite.structure as struc
+
+    for b1, b2 in PREC_PAIRS:
+        names = {"none": None, "box1": b1, "box2": b2}
+        for name in ("sparse", "border"):
+            for cs in (0.5, 1.5):
+                for form in ("atoms", "f32"):
+                    for own in (("none", "box1", "box2") if form == "atoms" else ("none",)):
+                        for arg in ("none", "box1", "box2"):
+                            for periodic in (False, True):
+                                eff = None if not periodic else (names[arg] if names[arg] else names[own])
+                                cfg = {"set": ["st", name], "cs": cs, "off": shard["off"], "form": form,
+                                       "prec": [names[own], names[arg], periodic]}
+                                if eff:
+                                    cfg["box"] = eff
+                                if periodic and eff is None:
+                                    ctx.ev(1, 1)
+                                    ctx.count("refused")
+                                    if not ctx.journal(cfg_tag(cfg) + "#build"):
+                                        continue
+                                    try:
+                                        build_celllist(cfg)
+                                        ctx.violation("CellList|accepted|periodic_without_any_box",
+                                                      "periodic=True without box argument and box attribute was not refused",
+                                                      {"kind": "build", "cfg": cfg}, "exception", "returned")
+                                    except Exception:  # noqa: BLE001
+                                        pass
+                                    continue
+                                run_config(ctx, cfg, "mini")
+    del struc
+
+
 def run_orient(shard, ctx):
     """the answer sets do not depend on the order of the atoms, on which rows of the box carry which lattice vector,
     or on a rigid rotation of atoms + box + queries (all 24 cube rotations keep the lattice dyadic)"""
@@ -1735,7 +1799,7 @@ def run_edge(shard, ctx):
             pass
 
 
-AUDIT_RUNNERS = {"flavour_pairs": run_flavour_pairs, "derived": run_derived, "cap": run_cap, "reuse": run_reuse, "alias": run_alias, "flavour": run_flavour, "orient": run_orient,
+AUDIT_RUNNERS = {"precedence": run_precedence, "flavour_pairs": run_flavour_pairs, "derived": run_derived, "cap": run_cap, "reuse": run_reuse, "alias": run_alias, "flavour": run_flavour, "orient": run_orient,
                  "edge": run_edge}
 
 
